@@ -38,9 +38,10 @@ type htask struct {
 	Globs []string `json:"globs,omitempty"`
 	Deps  []string `json:"deps,omitempty"`
 	// Effect: the task's commands write EffVal into file EffFile (index+1 into Files; 0 = no effect)
-	EffFile int    `json:"eff_file,omitempty"`
-	EffVal  string `json:"eff_val,omitempty"`
-	EffFrom int    `json:"eff_from,omitempty"` // instead of EffVal: copy the content of this file (index+1)
+	EffFile int      `json:"eff_file,omitempty"`
+	EffVal  string   `json:"eff_val,omitempty"`
+	EffFrom int      `json:"eff_from,omitempty"` // instead of EffVal: copy the content of this file (index+1)
+	Outs    []string `json:"outs,omitempty"`     // declared outputs (strings)
 }
 
 type hfile struct {
@@ -114,7 +115,11 @@ func (p hprog) text() string {
 				eff = fmt.Sprintf("    read -r VCOPY < \"$VPROJ/%s\" && echo \"$VCOPY\" > \"$VPROJ/%s\"\n", p.Files[t.EffFrom-1].Path, p.Files[t.EffFile-1].Path)
 			}
 		}
-		fmt.Fprintf(&sb, "task %s(%s) {\n    echo %s:1 >> \"$VLOG\"\n    test ! -e \"$VCTL/fail_%s\"\n%s    echo %s:3 >> \"$VLOG\"\n}\n\n", t.Name, strings.Join(deps, ", "), t.Name, t.Name, eff, t.Name)
+		outs := ""
+		if len(t.Outs) > 0 {
+			outs = " -> (\"" + strings.Join(t.Outs, "\", \"") + "\")"
+		}
+		fmt.Fprintf(&sb, "task %s(%s)%s {\n    echo %s:1 >> \"$VLOG\"\n    test ! -e \"$VCTL/fail_%s\"\n%s    echo %s:3 >> \"$VLOG\"\n}\n\n", t.Name, strings.Join(deps, ", "), outs, t.Name, t.Name, eff, t.Name)
 	}
 	return sb.String()
 }
@@ -167,6 +172,9 @@ func histCatalogue() []hprog {
 		// ... where the rewrite depends on another input (a generated file derived from a source file)
 		{Name: "P17-derived-file-between-equal-lists", ReqMax: 1, Tasks: []htask{{Name: "ta", Lits: []string{"gen.txt"}}, {Name: "tm", Deps: []string{"ta"}, Lits: []string{"src.txt"}, EffFile: 2, EffFrom: 1}, {Name: "tb", Deps: []string{"tm"}, Lits: []string{"gen.txt"}}},
 			Files: []hfile{lit("src.txt"), lit("gen.txt")}},
+		// a generated file that is a DECLARED output of its generator and matched by the consumer's glob
+		{Name: "P19-declared-output-is-a-glob-match", ReqMax: 1, Tasks: []htask{{Name: "ta", Lits: []string{"seed.txt"}, EffFile: 2, EffFrom: 1, Outs: []string{"g.src"}}, {Name: "tb", Deps: []string{"ta"}, Globs: []string{"*.src"}}},
+			Files: []hfile{lit("seed.txt"), lit("g.src"), globf("x.src", "v0")}},
 		{Name: "P15-independent-generator", Tasks: []htask{{Name: "ta", EffFile: 2, EffVal: "gen"}, {Name: "tb", Globs: []string{"*.src"}}},
 			Files: []hfile{globf("x.src", "v0", "v1"), globf("g.src", absent, "gen")}},
 		// the spokfile itself changes between invocations: a task is removed, comes back, is renamed
@@ -996,6 +1004,9 @@ func histCheck(prop, tier string) int {
 			run.Report(v)
 		}
 	})
+	if prop == "C14" {
+		run.Set("default_task_force_invocations", c14DefaultForce(run))
+	}
 	var states, trans, execs, runs, skips, dstates, conform, conformNew int64
 	outcomes := map[string]int64{}
 	perProg := map[string]any{}
@@ -1120,4 +1131,49 @@ func histReplay(path string) int {
 	}
 	fmt.Println("no violation on replay")
 	return 0
+}
+
+// c14DefaultForce: --force / -f given WITHOUT task names (the task named default is then
+// selected implicitly), alone and together with --json / --quiet, after the cache has
+// been filled: every task of the closure must execute.
+func c14DefaultForce(run *ev.Run) int64 {
+	root := filepath.Join(pool.Scratch, "c14bin")
+	t := bin.Tree{Root: root}
+	var calls int64
+	for _, shape := range []string{"chain", "independent"} {
+		for _, flags := range [][]string{{"--force"}, {"-f"}, {"--force", "--json"}, {"-f", "--quiet"}, {"--json", "-f"}, {"--force", "default"}, {"default", "-f"}} {
+			t.Reset()
+			proj := t.Mkdir("home/w/proj")
+			ctl := t.Mkdir("ctl")
+			dep := "dep, "
+			if shape == "independent" {
+				dep = ""
+			}
+			t.File("home/w/proj/spokfile", "task dep(\"a.txt\") {\n    echo dep >> \"$VLOG\"\n}\n\ntask default("+dep+"\"b.txt\") {\n    echo default >> \"$VLOG\"\n}\n")
+			t.File("home/w/proj/a.txt", "a\n")
+			t.File("home/w/proj/b.txt", "b\n")
+			vlog := filepath.Join(ctl, "vlog")
+			env := []string{"VLOG=" + vlog, "VCTL=" + ctl}
+			home := filepath.Join(root, "home")
+			// fill the cache: everything is up to date afterwards
+			bin.Run(proj, home, env, "dep", "default")
+			o := bin.Run(proj, home, env, "dep", "default", "--json")
+			calls += 2
+			os.Remove(vlog)
+			o = bin.Run(proj, home, env, flags...)
+			calls++
+			log := strings.Join(readLog(vlog), ",")
+			want := "dep,default"
+			if shape == "independent" {
+				want = "default"
+			}
+			if o.Exit != 0 || log != want {
+				run.Report(ev.Violation{Key: fmt.Sprintf("default-force %s %v", shape, flags), Class: "not-executed-under-force",
+					What: fmt.Sprintf("spokfile with a task named default (%s); after an up-to-date run, `spok %s` executed [%s] (exit %d), expected [%s]: a forced run must execute every task of the closure", shape, strings.Join(flags, " "), log, o.Exit, want),
+					Case: map[string]any{"shape": shape, "flags": flags}})
+			}
+		}
+	}
+	os.RemoveAll(root)
+	return calls
 }
